@@ -3482,6 +3482,68 @@ def k_use_with(E, tier):
     return rec
 
 
+def k_dest_start(E, tier):
+    """C21 (frame condition of the destination tree): starting a nested @media or at-rule inside a rule, an
+    at-rule or a media rule only *reads* the parent — the new destination points back at the parent, gets a
+    fresh rule copied from the parent's selectors (or none) and an empty body, and nothing already collected
+    in the parent is taken out of it or overwritten (so nothing that was evaluated before the nested block
+    can get lost when it starts)."""
+    rec = None
+    kinds = (("RuleDest", "69"), ("AtRuleDest", "234"), ("AtMediaDest", "356"))
+    for meth in ("start_atmedia", "start_atrule"):
+        fs = [g for g in E.funcs if re.search(r"^cssdest::<impl at .*>::%s$" % meth, g.name) and g.params and re.match(r"&mut (RuleDest|AtRuleDest|AtMediaDest)<", g.params[0][1])]
+        if len(fs) != 3:
+            raise sym.Unsupported("expected %s of RuleDest, AtRuleDest and AtMediaDest, found %d" % (meth, len(fs)))
+        for f in fs:
+            owner = re.match(r"&mut (\w+)<", f.params[0][1]).group(1)
+            if rec is None:
+                rec = Rec("CssDestination::start_atmedia / start_atrule of RuleDest, AtRuleDest, AtMediaDest", f, E)
+            ctx = E.ctx()
+            me = sym.Opaque(owner, "self", ctx)
+
+            def m_ev(name):
+                def m(ex, st, c, a, d, ctx=ctx):
+                    o = ctx.fresh_value(d or "()", "ret." + name)
+                    e = sym.Event(name, a, o, len(st.pc))
+                    e.rargs = [ex.resolve_ref(st, x) for x in a]
+                    st.events.append(e)
+                    return o
+                return m
+
+            models = [(r"^Option::<Rule>::as_ref$", m_ev("as_ref")), (r"^Option::<&Rule>::map::<Rule", m_ev("map")), (r"^Vec::<.*>::new$", m_ev("vec_new")),
+                      (r"^is_flat_rule$", lambda ex, st, c, a, d, ctx=ctx: ctx.fresh_scalar("bool", "is_flat_rule")),
+                      (r"^Rule::new$", m_ev("rule_new")), (r"as Clone>::clone$", m_ev("clone"))] + BASE_MODELS
+            ex = sym.Executor(ctx, models=models, feasibility=E.feasibility(ctx))
+            ex.track_mut_borrows = True
+            args = [sym.Ref("val", me)] + [sym.Opaque(t, "arg%d" % k, ctx) for k, (_, t) in enumerate(f.params[1:])]
+            paths = [p for p in ex.run(f, args) if p.status == "return"]
+            rec.paths += len(paths)
+            if not paths:
+                rec.add("%s::%s has a path (shape not recognised)" % (owner, meth), {"verdict": "inconclusive", "per_solver": {}, "time_s": 0})
+                continue
+            for i, p in enumerate(paths):
+                child = p.ret
+                mb = [e for e in p.events if e.callee == "mut-borrow" and e.args[0] == "_1" and e.args[2] == 1]
+                rec.add("%s::%s path %d: no field of the parent is borrowed mutably (nothing is taken out of, pushed into or replaced in the parent)" % (owner, meth, i),
+                        {"verdict": "holds" if not mb else "violated", "per_solver": {"structural": "mutable borrows of self fields: %s" % [e.args[1] for e in mb]}, "time_s": 0})
+                if not isinstance(child, sym.Agg):
+                    rec.add("%s::%s path %d: the child destination is built here (shape not recognised)" % (owner, meth, i), {"verdict": "inconclusive", "per_solver": {}, "time_s": 0})
+                    continue
+                par = child.fields.get("parent")
+                while isinstance(par, sym.Ref) and par.kind == "val":
+                    par = par.target
+                body = child.fields.get("body")
+                rule = child.fields.get("rule")
+                vn = [e.result for e in p.events if e.callee == "vec_new"]
+                derived = [e.result for e in p.events if e.callee in ("map", "rule_new")]
+                rule_ok = (isinstance(rule, sym.Agg) and rule.variant in ("None", "Some")) or any(rule is r_ for r_ in derived) or \
+                          (isinstance(rule, sym.Agg) and any(_payload_contains(rule, r_) for r_ in derived))
+                ok = par is me and any(body is v for v in vn) and rule_ok
+                rec.add("%s::%s path %d: the child points at this destination, starts with an empty body, and its rule is none or a new one derived from the parent's" % (owner, meth, i),
+                        {"verdict": "holds" if ok else "violated", "per_solver": {"structural": "parent=%s body=%s rule=%s" % (par is me, any(body is v for v in vn), rule_ok)}, "time_s": 0})
+    return rec
+
+
 def k_value_eq_symmetric(E, tier):
     """C12: css::Value::eq is symmetric as a function of the two values' kinds and of the (symmetric)
     comparisons of their parts: eq(a,b) and eq(b,a) are executed symbolically and must be the same
